@@ -113,6 +113,7 @@ PROPS['C02'] = dict(
         U(c02, 'prng', 15000, 500000, wq=1, wt=2, label='c02-asan-fill07', asan_options=FILL % 0x07),
         U(c02, 'rc', 1500, 30000, wq=2, wt=3, label='c02-asan-rc', asan_options=FILL % 0xbe),
         U(c02p, 'prng', 15000, 500000, wq=2, wt=3, label='c02-prod-perturb'),
+        U(B('c02_safety', 'c02_safety.cpp', 'wasan'), 'prng', 10000, 400000, wq=2, wt=2, label='c02-sse-asan', asan_options=FILL % 0x0c),
         F(fz02, 15, 600, wq=3, wt=4, label='fz_safety', dict='fuzz/json.dict', seeds='fuzz/seeds/safety', field='raw',
           asan_options=FILL % 0x0c),
     ],
@@ -142,13 +143,16 @@ PROPS['C05'] = dict(
         U(B('c05_strings', 'c05_strings.cpp', 'wasan'), 'prng', 150000, 4000000, wq=3, wt=4, label='c05-sse-asan'),
         U(c05, 'rc', 4000, 100000, wq=2, wt=2, label='c05-rc'),
         U(c05, 'prng', 768, 768 * 24, wq=2, wt=6, label='c05-exhaustive-u', args=['--exhaustive-u']),
+        U(B('c05_strings', 'c05_strings.cpp', 'wasan'), 'prng', 768, 768 * 8, wq=1, wt=2, label='c05-exhaustive-u-sse', args=['--exhaustive-u']),
+        U(c05, 'prng', 3072, 3072 * 4, wq=2, wt=4, label='c05-exhaustive-pairs', args=['--exhaustive-pairs'], cap_s=dict(quick=120, thorough=900)),
         F(fz05, 15, 600, wq=2, wt=2, label='fz_string', field='body', dict='fuzz/string.dict', max_len=300),
     ],
     harness_alias={'fz_string': 'c05_strings'},
     exhaustive=dict(quick=False, thorough=False),
     rule='cases: literal = filler(0..69 bytes) + feature + filler, so the feature sits at every offset of the 16/32-byte grid; '
          'features: the 8 short escapes, \\uXXXX (all 65536 values enumerated completely by the exhaustive-u unit in each of '
-         '3 contexts, every run), surrogate-region singles and ordered pairs, every raw byte, every byte after a backslash, '
+         '3 contexts, every run), all 1024 x 1024 high+low surrogate pairs (exhaustive-pairs unit, each of 3 contexts, every run) and '
+         '~100 non-low second escapes per high surrogate, surrogate-region singles and ordered pairs, every raw byte, every byte after a backslash, '
          'malformed \\u, unpaired/misordered surrogates, runs of consecutive escapes; fillers plain ASCII, ASCII mixed with '
          'bytes >= 0x80, or any unescaped-legal byte; one case in three has a valid escape before the feature (post-escape '
          'decoder path); AVX2 and SSE (-march=westmere) sanitizer builds; contexts: root value, array element, '
